@@ -1559,6 +1559,16 @@ func (sc *serverConn) processFrameFromReader(res readFrameResult) bool {
 
 	switch ev := err.(type) {
 	case StreamError:
+		if res.err != nil && !sc.inGoAway {
+			// The framer rejected the frame (malformed header block, bad padding), so it
+			// never reached processHeaders. The client has used the stream identifier all
+			// the same (RFC 7540, Section 5.1.1): the stream is closed now, not idle.
+			h := sc.framer.lastReadHeader
+			if (h.Type == FrameHeaders || h.Type == FrameContinuation) && h.StreamID == ev.StreamID &&
+				ev.StreamID%2 == 1 && ev.StreamID > sc.maxClientStreamID {
+				sc.maxClientStreamID = ev.StreamID
+			}
+		}
 		sc.resetStream(ev)
 		return true
 	case goAwayFlowError:
